@@ -20,18 +20,20 @@ PROP = 'C03'
 TYPES = ['p2pk', 'multisig', 'p2pkh', 'p2sh-multisig', 'p2sh-hashlock', 'p2wpkh', 'p2wsh', 'p2sh-p2wpkh', 'p2sh-p2wsh', 'p2tr-key', 'p2tr-script', 'p2wsh-timelock', 'p2sh-timelock', 'p2wsh-hashlock']
 SEGWIT = {'p2wpkh', 'p2wsh', 'p2sh-p2wpkh', 'p2sh-p2wsh', 'p2tr-key', 'p2tr-script', 'p2wsh-timelock', 'p2wsh-hashlock'}
 SATS = {
-    'p2pk': ['valid', 'wrong-key', 'altered-output', 'altered-sequence', 'altered-locktime', 'non-push-scriptsig', 'leftover-stack', 'unexpected-witness', 'split-conditional', 'altstack-carry', 'wrong-amount'],
+    'p2pk': ['valid', 'wrong-key', 'altered-output', 'altered-sequence', 'altered-locktime', 'non-push-scriptsig', 'leftover-stack', 'unexpected-witness', 'split-conditional', 'altstack-carry', 'wrong-amount',
+             'opcount-201-in-each-script', 'opcount-202-in-scriptpubkey', 'opcount-202-in-scriptsig', 'other-input-has-witness'],
     'multisig': ['valid', 'wrong-key', 'wrong-order', 'altered-output', 'missing-sig', 'nonempty-dummy', 'leftover-stack'],
-    'p2pkh': ['valid', 'wrong-key', 'wrong-pubkey-hash', 'altered-output', 'altered-locktime', 'unexpected-witness', 'leftover-stack', 'wrong-amount'],
-    'p2sh-multisig': ['valid', 'wrong-key', 'wrong-script-hash', 'altered-output', 'non-push-scriptsig', 'leftover-stack', 'wrong-order'],
+    'p2pkh': ['valid', 'wrong-key', 'wrong-pubkey-hash', 'altered-output', 'altered-locktime', 'unexpected-witness', 'leftover-stack', 'wrong-amount', 'other-input-has-witness'],
+    'p2sh-multisig': ['valid', 'wrong-key', 'wrong-script-hash', 'altered-output', 'non-push-scriptsig', 'leftover-stack', 'wrong-order', 'other-input-has-witness'],
     'p2sh-hashlock': ['valid', 'wrong-preimage', 'wrong-script-hash', 'non-push-scriptsig', 'leftover-stack'],
     'p2wpkh': ['valid', 'wrong-key', 'wrong-pubkey-hash', 'wrong-amount', 'altered-output', 'altered-sequence', 'extra-witness-item', 'missing-witness-item', 'nonempty-scriptsig', 'uncompressed-key'],
     'p2wsh': ['valid', 'wrong-key', 'wrong-script-hash', 'wrong-amount', 'altered-output', 'extra-witness-item', 'missing-witness-item', 'witness-item-521', 'leftover-stack', 'nonempty-scriptsig', 'false-result'],
     'p2sh-p2wpkh': ['valid', 'wrong-key', 'wrong-script-hash', 'wrong-amount', 'altered-locktime', 'scriptsig-trailing-op', 'scriptsig-nonminimal-push', 'extra-witness-item'],
     'p2sh-p2wsh': ['valid', 'wrong-key', 'wrong-script-hash', 'wrong-witness-script-hash', 'wrong-amount', 'scriptsig-trailing-op', 'leftover-stack'],
-    'p2tr-key': ['valid', 'wrong-key', 'wrong-amount', 'altered-output', 'altered-sequence', 'annex', 'annex-unsigned', 'hashtype-single', 'bad-sig-size', 'multi-input'],
+    'p2tr-key': ['valid', 'wrong-key', 'wrong-amount', 'altered-output', 'altered-sequence', 'annex', 'annex-unsigned', 'hashtype-single', 'bad-sig-size', 'multi-input', 'sig-first-byte-0x50'],
     'p2tr-script': ['valid', 'wrong-key', 'wrong-amount', 'altered-output', 'control-parity', 'control-internal-key', 'control-node', 'control-leaf-version', 'control-truncated', 'wrong-script', 'annex',
-                    'extra-witness-item', 'leftover-stack', 'false-result', 'op-success', 'unknown-leaf-version', 'empty-script', 'multi-input', 'many-checks', 'many-checks-annex', 'p2sh-shaped-leaf'],
+                    'extra-witness-item', 'leftover-stack', 'false-result', 'op-success', 'unknown-leaf-version', 'empty-script', 'multi-input', 'many-checks', 'many-checks-annex', 'p2sh-shaped-leaf',
+                    'initial-stack-999', 'initial-stack-1000', 'initial-stack-1001', 'initial-stack-998-annex', 'initial-stack-1000-annex', 'initial-stack-1001-annex'],
     'p2wsh-timelock': ['csv-ok', 'csv-too-early', 'csv-equal', 'csv-highbits-ok', 'csv-highbits-too-early', 'csv-disabled-bit-in-tx', 'csv-disabled-bit-in-script', 'csv-type-mismatch', 'csv-version1',
                        'cltv-ok', 'cltv-too-early', 'cltv-equal', 'cltv-type-mismatch', 'cltv-final-sequence', 'cltv-time-ok'],
     'p2sh-timelock': ['csv-ok', 'csv-too-early', 'csv-highbits-too-early', 'csv-version1', 'cltv-ok', 'cltv-too-early', 'cltv-final-sequence', 'cltv-type-mismatch'],
@@ -80,6 +82,9 @@ def build(rng, otype, sat):
     redeem = wscript = None
     if otype == 'p2pk':
         spk = rsign.spk_p2pk(pub)
+        if sat.startswith('opcount'):
+            # each script has its own budget of 201 counted operations (the scriptSig's are not carried over)
+            spk = bytes([OP_NOP]) * (201 if sat == 'opcount-202-in-scriptpubkey' else 200) + spk
     elif otype == 'multisig':
         k = rng.choice([1, 2])
         spk = rsign.multisig_script(k, pubs3)
@@ -162,6 +167,11 @@ def build(rng, otype, sat):
             reps = rng.choice([3, 4, 5])
             tap_script = b''.join(bytes([OP_DUP]) + push_only(xpk) + bytes([OP_CHECKSIGVERIFY]) for _ in range(reps - 1)) + push_only(xpk) + bytes([OP_CHECKSIG])
             kind = 'checksig'
+        elif sat.startswith('initial-stack-'):
+            # BIP342: at most 1000 elements on the initial stack - the leaf script, the control block and the annex are not among them
+            nst = int(sat.split('-')[2])
+            tap_script = bytes([OP_DROP]) * (nst - 1)
+            kind = 'stack'
         elif sat == 'p2sh-shaped-leaf':
             pre = rng.choice([bytes([OP_RETURN]), bytes([OP_1]), bytes([OP_0])])
             tap_script = bytes([OP_HASH160]) + push_only(hash160(pre)) + bytes([OP_EQUAL])
@@ -195,6 +205,8 @@ def build(rng, otype, sat):
     nin = rng.choice([1, 1, 2, 3, 4])
     if otype in ('p2tr-key', 'p2tr-script'):
         nin = 1 if sat != 'multi-input' else rng.choice([2, 3])
+    if sat == 'other-input-has-witness':
+        nin = rng.choice([2, 3, 4])
     idx = rng.randrange(nin)
     fid = rtx.txid(fund)
     prevouts = [(fid, fvout) if i == idx else (rsign.rnd_bytes(rng, 32), rng.randrange(3)) for i in range(nin)]
@@ -251,6 +263,8 @@ def build(rng, otype, sat):
 
     if otype == 'p2pk':
         ssig = push_only(lsig(spk))
+        if sat.startswith('opcount'):
+            ssig += bytes([OP_NOP]) * (202 if sat == 'opcount-202-in-scriptsig' else 201)
     elif otype == 'multisig':
         k = spk[0] - OP_1 + 1
         dummy = b'\x00' if sat != 'nonempty-dummy' else b'\x01\x01'
@@ -313,11 +327,14 @@ def build(rng, otype, sat):
         d = sighash.sighash_taproot(tx, idx, tht, spent, 0, annex if sat != 'annex-unsigned' else None)
         key = tweaked if sat != 'wrong-key' else rsign.rnd_sk(rng)
         sig = rsign.sign_schnorr(key, d if d else b'\x00' * 32, tht)
+        if sat == 'sig-first-byte-0x50':
+            # a lone key-path signature is never an annex, whatever its first byte is (BIP341: only with two or more elements)
+            sig = secp.schnorr_sign_nonce(key, d if d else b'\x00' * 32, secp.nonce_with_first_byte(0x50, rng.choice([1, 300, 5000]))) + (bytes([tht]) if tht else b'')
         if sat == 'bad-sig-size':
             sig = sig + b'\x01\x01'
         wit = [sig] + ([annex] if annex is not None else [])
     else:
-        annex = b'\x50\x01\x02' if sat in ('annex', 'many-checks-annex') else None
+        annex = b'\x50\x01\x02' if sat in ('annex', 'many-checks-annex') or sat.endswith('-annex') else None
         leaf = taproot.tapleaf_hash(tap_script, leaf_version)
         tht = rng.choice([0, 0, 1, 0x82])
         d = sighash.sighash_taproot(tx, idx, tht, spent, 1, annex, leaf, 0xffffffff)
@@ -328,6 +345,8 @@ def build(rng, otype, sat):
             args = [pre if sat != 'wrong-key' else pre + b'x']
         elif tap_kind == 'checksigadd':
             args = [rsign.sign_schnorr(sk3, d, tht), rsign.sign_schnorr(key, d, tht)]
+        elif tap_kind == 'stack':
+            args = [b'\x01'] * nst
         else:
             args = [b'\x01'] if sat == 'op-success' else [b'\x01']
         if sat == 'false-result' and tap_kind != 'hashlock':
@@ -378,6 +397,10 @@ def build(rng, otype, sat):
         ssig = ssig + bytes([OP_1, OP_TOALTSTACK])
     tx.vin[idx][2] = ssig
     tx.wit[idx] = wit
+    if sat == 'other-input-has-witness':
+        # a transaction of mixed kinds: the input under test is a legacy one, another input carries a witness
+        j = rng.choice([i for i in range(nin) if i != idx])
+        tx.wit[j] = [rsign.rnd_bytes(rng, 71), secp.pub_from_sec(rsign.rnd_sk(rng))]
     # ---- post-signing alterations
     if sat == 'altered-output' and tx.vout:
         v, s = tx.vout[0]
